@@ -134,6 +134,11 @@ def make_case(seed, idx, tier):
         # a long-lived wrapper: more than 10 000 calls through one stats / counting wrapper
         ncalls = rng.randint(10100, 11000)
         stack = [rng.choice(["stats", "count"]), "stats"][: max(1, depth)] if depth else ["stats"]
+    very_long = idx % 400 == 277
+    if very_long:
+        # ... and more than 100 000 calls (the values are cycled, see "repeat"): what a long optimisation run sends through one problem object
+        ncalls = rng.randint(10100, 11000)
+        stack = [["stats"], ["count", "stats"], ["stats", "count"], ["stats", "stats"]][(idx // 400) % 4]
     for k in stack:
         if k == "cutoff":
             wr.append({"k": k, "n": rng.choice([0, 1, 2, 3, 5, 10, 30, ncalls - 1, ncalls, ncalls + 5])})
@@ -165,7 +170,9 @@ def make_case(seed, idx, tier):
             v = rng.choice([near, far, far])
         vals.append(float(v).hex())
     d = {"kind": "c16", "stack": wr, "maximize": maximize, "values_hex": vals, "mode": mode, "idx": idx}
-    if len(wr) >= 2 and idx % 5 == 2:
+    if very_long:
+        d["repeat"] = 11
+    if len(wr) >= 2 and idx % 5 == 2 and not very_long:
         # the outermost wrapper is put around a stack that has already been used for a while (wrapping late)
         d["late_wrap_after"] = rng.randint(1, max(1, min(12, ncalls // 2)))
     return d
@@ -291,7 +298,10 @@ def run_case(desc):
         top = objs[-1]
     past_cutoff = 0
     hits = 0
-    for i, hx in enumerate(desc["values_hex"]):
+    sequence = desc["values_hex"] * int(desc.get("repeat", 1))
+    if len(sequence) > 100000:
+        cov["sequences_of_more_than_100000_calls"] += 1
+    for i, hx in enumerate(sequence):
         if late and i == late and len(desc["stack"]) >= 2 and len(objs) == len(desc["stack"]) - 1:
             o_, m_ = build_outer(desc["stack"][-1], top)  # constructed now, around an inner stack that has already counted `late` calls
             objs, models = objs + [o_], models + [m_]
